@@ -66,6 +66,7 @@ FG_BOUND = 150.0  # virtual seconds a client body waits for its foreground opera
 DELIVERY_BOUND = 90.0  # virtual seconds a graceful client waits for its streams to reach the peer's readers
 CLIENT_BOUND = 500.0
 SERVER_BOUND = 150.0
+COMPLETE_GRACE = 35.0  # virtual seconds (after write_eof and after the network became fair) within which a stream must be delivered
 SCEN_WALL = 25.0  # wall-clock watchdog per scenario (expected 0.3-1 s)
 
 V1 = 0x00000001
@@ -141,7 +142,7 @@ def gen_spec(seed):
         "retry": retry,
         "fate": fate,
         "lateness": rng.choice([0.0, 0.001, 0.005]),
-        "server_idle": rng.choice([6.0, 12.0, 20.0]),
+        "server_idle": rng.choice([10.0, 50.0, 60.0]),
         "server_close_all_at": rng.choice([0.03, 0.2, 1.0, 2.5]) if rng.random() < 0.08 else None,
         "version": "v2" if rng.random() < 0.15 else "v1",
         "inject": [],
@@ -161,7 +162,7 @@ def gen_spec(seed):
             "wait_connected": rng.random() < 0.8,
             "close_kind": kind,
             "close_at": round(rng.choice([0.0, 0.03, 0.1, 0.3, 1.0, 2.0]) + rng.random() * 0.05, 4),
-            "idle": rng.choice([1.5, 3.0]) if kind == "idle" else rng.choice([8.0, 20.0, 45.0]),
+            "idle": rng.choice([1.5, 3.0]) if kind == "idle" else (rng.choice([45.0, 60.0]) if kind == "ctx_exit" else rng.choice([8.0, 20.0, 45.0])),
             "ops": [],
             "bg_ops": [],
             "exit_ops": [],
@@ -252,7 +253,7 @@ def spec_signature(spec):
 
 class StreamRec:
     __slots__ = ("label", "sid", "direction", "key", "written", "eof", "read_len", "eof_seen", "eof_by_term", "reader_started",
-                 "poisoned", "done_evt", "writer_conn", "reader_conn")
+                 "poisoned", "done_evt", "writer_conn", "reader_conn", "eof_at", "eof_seen_at")
 
     def __init__(self, seed, label, sid, direction):
         self.label, self.sid, self.direction = label, sid, direction
@@ -267,10 +268,13 @@ class StreamRec:
         self.done_evt = None
         self.writer_conn = None
         self.reader_conn = None
+        self.eof_at = None
+        self.eof_seen_at = None
 
     def brief(self):
         return {"stream": "%s/%d/%s" % (self.label, self.sid, self.direction), "written": self.written, "eof_written": self.eof,
-                "read": self.read_len, "eof_seen": self.eof_seen, "eof_by_termination": self.eof_by_term}
+                "read": self.read_len, "eof_seen": self.eof_seen, "eof_by_termination": self.eof_by_term,
+                "write_eof_at": self.eof_at, "reader_eof_at": self.eof_seen_at}
 
 
 class Waiter:
@@ -297,6 +301,7 @@ class PInfo:
         self.role, self.label, self.index = role, label, index
         self.terminated = False
         self.term = None
+        self.term_at = None
         self.handshake = False
         self.close_called = False
         self.closed_at = None
@@ -481,6 +486,7 @@ class Scenario:
         self.obs = {}
         self.inconclusive = None
         self.other_token_handler = None
+        self.server_close_time = None
 
     # ------------------------------------------------------------------ plumbing
     def count(self, name, n=1):
@@ -594,6 +600,7 @@ class Scenario:
             if v.terminated:
                 self.count("obs_terminated_event_twice")
             v.terminated = True
+            v.term_at = self.loop.time()
             v.term = (event.error_code, event.frame_type, event.reason_phrase)
             v.trace.append("X")
             self.count("terminations_%s_code_0x%x" % (v.role, event.error_code))
@@ -653,6 +660,7 @@ class Scenario:
         if eof_delay:
             await asyncio.sleep(eof_delay)
         rec.eof = True
+        rec.eof_at = self.loop.time()
         writer.write_eof()
         self.count("streams_written")
 
@@ -683,6 +691,7 @@ class Scenario:
                 self.violation("stream:bytes-beyond-written", "reader returned %d bytes, writer wrote %d" % (rec.read_len, rec.written), {"stream": rec.brief()})
                 rec.poisoned = True
         rec.eof_seen = True
+        rec.eof_seen_at = self.loop.time()
         rec.eof_by_term = v.terminated
         self.count("stream_eofs_seen")
         if not rec.poisoned:
@@ -766,6 +775,7 @@ class Scenario:
                 if reply["pause"]:
                     await asyncio.sleep(reply["pause"])
             rec_in.eof_seen = True
+            rec_in.eof_seen_at = self.loop.time()
             rec_in.eof_by_term = v.terminated
             self.count("stream_eofs_seen")
             if not rec_in.poisoned:
@@ -780,6 +790,7 @@ class Scenario:
             self.count("streams_checked")
             rec_in.done_evt.set()
             rec_out.eof = True
+            rec_out.eof_at = self.loop.time()
             writer.write_eof()
             self.count("streams_written")
         else:
@@ -834,6 +845,7 @@ class Scenario:
             if v.terminated:
                 return
             reader, writer = await proto.create_stream(is_unidirectional=True)
+            writer.write(b"")
             sid = writer.get_extra_info("stream_id")
             rec = self.srec(v.label, sid, "s2c")
             self._push_ops[(v.label, sid)] = op
@@ -878,13 +890,20 @@ class Scenario:
                 "two create_stream() calls on one connection returned writers for the same stream id %d (second call before the first writer wrote)" % sid,
                 {"stream_id": sid},
             )
-            self.streams[(v.label, sid, "c2s")].poisoned = True
+            # everything about this stream id is now shared by two writers/readers: exclude it from the other oracles
+            self.srec(v.label, sid, "c2s").poisoned = True
+            self.srec(v.label, sid, "s2c").poisoned = True
             return
         rec = self.srec(v.label, sid, "c2s")
         self._stream_ops[(ci, sid)] = op
         lazy = op.get("lazy_first_write")
         if lazy:
             await asyncio.sleep(lazy)
+            if rec.poisoned:
+                return
+        else:
+            # first write directly after create_stream() (this is what makes the stream id taken)
+            writer.write(b"")
         wt = self.spawn(self.write_stream(proto, writer, rec, op["chunks"], op["eof_delay"]))
         if not op["uni"]:
             rec_back = self.srec(v.label, sid, "s2c")
@@ -980,19 +999,6 @@ class Scenario:
                 await asyncio.wait_for(recs[0].done_evt.wait(), min(left, 5.0))
             except asyncio.TimeoutError:
                 pass
-        for r in recs:
-            peer = r.reader_conn
-            if peer is None:
-                cands = [proto] if r.direction == "s2c" else [p for p in self.server_protos if p.vf.label == label]
-                peer = next((p for p in cands if not p.vf.terminated), None)
-            if peer is None or peer.vf.terminated or proto.vf.terminated:
-                continue
-            self.violation(
-                "stream:not-delivered-on-live-connection",
-                "stream %s/%d/%s: writer finished (%d bytes + EOF) but the peer's reader saw %d bytes and no EOF %.0f virtual seconds after the network became fair; both connections still up"
-                % (r.label, r.sid, r.direction, r.written, r.read_len, DELIVERY_BOUND),
-                {"stream": r.brief(), "reader_started": r.reader_started},
-            )
 
     async def client_closer(self, proto, c, t0):
         await self._sleep_until(t0 + c["close_at"])
@@ -1206,6 +1212,7 @@ class Scenario:
     async def close_server_at(self, t):
         await asyncio.sleep(t)
         self.count("closes_server_close_all")
+        self.server_close_time = self.loop.time()
         self.server_closed = True
         self.server.close()
 
@@ -1338,6 +1345,43 @@ class Scenario:
                     "conn:never-terminated-and-no-timer-armed",
                     "%s connection %s never reported termination and has no timer armed at virtual t=%.1f (close() called: %s)" % (v.role, v.label, loop.time(), v.close_called),
                     {"trace_tail": "".join(v.trace[-30:])},
+                )
+        # ---- oracle (1c): a finished stream on a connection that stayed up reaches the peer's reader completely
+        t_end_all = loop.time()
+        for r in self.streams.values():
+            if not r.eof or r.poisoned or r.writer_conn is None:
+                continue
+            wconn = r.writer_conn
+            rconn = r.reader_conn
+            if rconn is None:
+                if r.direction == "s2c":
+                    rconn = next((p for p in self.protos if p.vf.role == "client" and p.vf.label == r.label), None)
+                else:
+                    rconn = next((p for p in self.server_protos if p.vf.label == r.label), None)
+            if rconn is None:
+                continue
+            t0 = max(r.eof_at, spec["fate"]["adv_until"])
+            ends = [t_end_all]
+            for c in (wconn, rconn):
+                for t in (c.vf.term_at, c.vf.closed_at):
+                    if t is not None:
+                        ends.append(t)
+            if self.server_close_time is not None:
+                ends.append(self.server_close_time)
+            up_for = min(ends) - t0
+            if r.eof_seen and not r.eof_by_term and r.read_len == r.written and r.eof_seen_at <= t0 + COMPLETE_GRACE:
+                self.count("streams_completeness_checked")
+                continue
+            if up_for < COMPLETE_GRACE:
+                self.count("streams_connection_ended_before_delivery_bound")
+                continue
+            self.count("streams_completeness_checked")
+            if True:
+                self.violation(
+                    "stream:not-delivered-on-live-connection",
+                    "stream %s/%d/%s: writer finished (%d bytes, write_eof at t=%.3f); both connections stayed up for %.1f more virtual seconds on a fair network, "
+                    "but the peer's reader had %d bytes and EOF seen=%s" % (r.label, r.sid, r.direction, r.written, r.eof_at, up_for, r.read_len, r.eof_seen),
+                    {"stream": r.brief(), "reader_started": r.reader_started},
                 )
         # ---- streams: leftovers
         for r in self.streams.values():
